@@ -1,3 +1,4 @@
+-- properties: C04 C11
 /-
   C04 / C11 — WAVEX files (SfModel/Wavex.lean), sample-granular encodings, write side.  Property theorems only
   (helpers: SfProofs/WavexSession.lean).  `image c N pk data = hdr c N pk ++ data ++ tail c N` is the closed file.
